@@ -299,8 +299,16 @@ func scratchDir() (string, error) {
 func cleanupScratch() {
 	engMu.Lock()
 	defer engMu.Unlock()
-	for _, e := range engines {
-		_ = e.Close()
+	done := make(chan struct{})
+	go func() {
+		for _, e := range engines {
+			_ = e.Close()
+		}
+		close(done)
+	}()
+	select {
+	case <-done:
+	case <-time.After(20 * time.Second): // never let the tear-down of the scratch engines keep the process alive
 	}
 	if engRoot != "" {
 		_ = os.RemoveAll(engRoot)
@@ -320,7 +328,13 @@ func engineFor(w *world, slot int, pts []uint32) (*engine.EngineImpl, error) {
 	if e == nil {
 		opt := engine.NewEngineOptions()
 		opt.OpenShardLimit = 4
-		iface, err := engine.NewEngine(filepath.Join(root, key, "data"), filepath.Join(root, key, "wal"), opt, &metaclient.LoadCtx{LoadCh: make(chan *metaclient.DBPTCtx, 64)})
+		loadCtx := &metaclient.LoadCtx{LoadCh: make(chan *metaclient.DBPTCtx, 64)}
+		go func() { // the store's load reporter consumes the partitions' periodic load reports
+			for ctx := range loadCtx.LoadCh {
+				loadCtx.PutReportCtx(ctx)
+			}
+		}()
+		iface, err := engine.NewEngine(filepath.Join(root, key, "data"), filepath.Join(root, key, "wal"), opt, loadCtx)
 		if err != nil {
 			return nil, err
 		}
